@@ -3,6 +3,7 @@ package keeper
 import (
 	"bytes"
 	"math"
+	"sort"
 
 	errorsmod "cosmossdk.io/errors"
 	storetypes "cosmossdk.io/store/types"
@@ -87,13 +88,33 @@ func (k Keeper) getBalances(ctx sdk.Context) []types.Owner {
 		ownerMap[address][denomID][mtID] = amount
 	}
 
+	// iterate in sorted key order: the result goes into the exported genesis and must not depend on Go's map order
 	var owners []types.Owner
-	for addr, denomMap := range ownerMap {
+	addrs := make([]string, 0, len(ownerMap))
+	for addr := range ownerMap {
+		addrs = append(addrs, addr)
+	}
+	sort.Strings(addrs)
+	for _, addr := range addrs {
+		denomMap := ownerMap[addr]
+		denomIDs := make([]string, 0, len(denomMap))
+		for denomID := range denomMap {
+			denomIDs = append(denomIDs, denomID)
+		}
+		sort.Strings(denomIDs)
+
 		var denomBalances []types.DenomBalance
-		for denomID, mtMap := range denomMap {
+		for _, denomID := range denomIDs {
+			mtMap := denomMap[denomID]
+			mtIDs := make([]string, 0, len(mtMap))
+			for mtID := range mtMap {
+				mtIDs = append(mtIDs, mtID)
+			}
+			sort.Strings(mtIDs)
+
 			var balances []types.Balance
-			for mtID, amount := range mtMap {
-				balance := types.NewBalance(mtID, amount)
+			for _, mtID := range mtIDs {
+				balance := types.NewBalance(mtID, mtMap[mtID])
 				balances = append(balances, balance)
 			}
 			denomBalance := types.NewDenomBalance(denomID, balances)
